@@ -86,10 +86,10 @@ def make_uf(name, nanable=False):
   p.def_impl(impl)
 
   def batch_rule(args, dims, out_avals, **kw):
-    size = next(a.shape[d] for a, d in zip(args, dims) if d is not batching.not_mapped)
+    size = next(a.shape[d] for a, d in zip(args, dims) if d is not None)
     rows = []
     for i in range(size):
-      row_args = [a if d is batching.not_mapped else jnp.take(a, i, axis=d) for a, d in zip(args, dims)]
+      row_args = [a if d is None else jnp.take(a, i, axis=d) for a, d in zip(args, dims)]
       rows.append(p.bind(*row_args, out_avals=out_avals, **kw))
     outs = [jnp.stack([r[k] for r in rows]) for k in range(len(out_avals))]
     return outs, [0] * len(outs)
